@@ -95,6 +95,204 @@ def is_checked_identity(P, fn):
     return 0 in d and all(n.endswith('::map_err') or n.endswith('::ok_or') or n.endswith('::ok_or_else') for n in others)
 
 
+def _frame_semantic(ctx, P, B, rs):
+    """Symbolic check of one success sequence of writes [(width, bb) ...]: the first write is a u32 whose value equals the total
+    size of what follows (1 per u8, len(x) per byte string x, with an optional payload counted exactly when it is written), the
+    frame is `112 control [payload]` or the output of the header encoder.  Returns one of the four shape names or None."""
+    from ..ranges import canon as _cn, Ranges as _Rg
+    if not rs:
+        return None
+    evs = [(w, bb) for (w, bb) in rs if w != 'flush']
+    if len(evs) < 2:
+        return None
+
+    def opnd(bb, k):
+        t = B.blocks[bb]['t']
+        return t['args'][k] if len(t['args']) > k else None
+
+    def cn(op, bb):
+        return _cn(B, op, 0, (bb, None))
+
+    def is_len_fn(op):
+        from ..families import _len_fn
+        try:
+            return _len_fn(B, op)
+        except Exception:
+            return False
+
+    def lin(c, depth=0):
+        if depth > 12 or not isinstance(c, tuple):
+            return None
+        k = c[0]
+        if k == 'const' and isinstance(c[1], int):
+            return {'1': c[1]}
+        if k == 'len':
+            x = c[1]
+            if isinstance(x, tuple) and x and x[0] == 'place' and tuple(x[2]) == ('as:Some', '0'):
+                return {('optlen', x[1]): 1}
+            return {('len', x): 1}
+        if k == 'cast':
+            return lin(c[2], depth + 1)
+        if k == 'bin' and c[1] in ('Add', 'Sub', 'AddUnchecked', 'SubUnchecked'):
+            a, b = lin(c[2], depth + 1), lin(c[3], depth + 1)
+            if a is None or b is None:
+                return None
+            sg = 1 if c[1].startswith('Add') else -1
+            out = dict(a)
+            for k_, v_ in b.items():
+                out[k_] = out.get(k_, 0) + sg * v_
+            return {k_: v_ for k_, v_ in out.items() if v_ != 0}
+        if k in ('payload', 'try') and isinstance(c[1], tuple) and c[1] and c[1][0] == 'call':
+            nm = str(c[1][1])
+            t_ = B.blocks[c[1][2]]['t']
+            if t_['k'] == 'call' and t_['args'] and (nm.endswith('::try_from') or nm.endswith('::try_into') or (nm.startswith('edp_client::') and is_checked_identity(P, nm))):
+                return lin(cn(t_['args'][0], c[1][2]), depth + 1)
+            return None
+        if k == 'call':
+            nm = str(c[1])
+            t_ = B.blocks[c[2]]['t']
+            last = nm.rsplit('::', 1)[-1]
+            if last == 'map_or' and 'Option' in nm and len(t_['args']) > 2 and B.origin(t_['args'][1]) == ('const', 0) and is_len_fn(t_['args'][2]):
+                return {('optlen', cn(t_['args'][0], c[2])): 1}
+            if last in ('unwrap_or', 'unwrap_or_default') and 'Option' in nm and t_['args']:
+                if last == 'unwrap_or' and B.origin(t_['args'][1]) != ('const', 0):
+                    return None
+                oi = B.origin(t_['args'][0])
+                if oi[0] == 'call' and oi[1] and oi[1].endswith('Option::<T>::map'):
+                    it = B.blocks[oi[2]]['t']
+                    if len(it['args']) > 1 and is_len_fn(it['args'][1]):
+                        return {('optlen', cn(it['args'][0], oi[2])): 1}
+            return None
+        return None
+
+    def strip_ref(c):
+        # Option<&Vec> obtained with as_ref()/as_deref() from the Option<Vec>: the same option for our purpose
+        for _ in range(3):
+            if isinstance(c, tuple) and c and c[0] == 'call' and str(c[1]).rsplit('::', 1)[-1] in ('as_ref', 'as_deref'):
+                t_ = B.blocks[c[2]]['t']
+                c = cn(t_['args'][0], c[2])
+            else:
+                break
+        return c
+
+    def norm(form):
+        return {((k[0], strip_ref(k[1])) if isinstance(k, tuple) else k): v for k, v in form.items()}
+    # staged frame (header mode builds the frame in a local buffer and writes the buffer): the socket write is the last event and its
+    # operand is the buffer the earlier events wrote into
+    last_w, last_bb = evs[-1]
+    frame = evs
+    if last_w == 'bytes' and len(evs) >= 3:
+        bufc = cn(opnd(last_bb, 1), last_bb)
+        staged = [e for e in evs[:-1] if cn(opnd(e[1], 0), e[1]) == bufc]
+        if len(staged) == len(evs) - 1:
+            frame = staged
+    w0, bb0 = frame[0]
+    if w0 != 'u32':
+        return None
+    L = lin(cn(opnd(bb0, 1), bb0))
+    if L is None:
+        return None
+    L = norm(L)
+    S = {}
+    items = []
+    for w, bb in frame[1:]:
+        if w == 'u8':
+            S['1'] = S.get('1', 0) + 1
+            items.append(('u8', B.origin(opnd(bb, 1))))
+        elif w == 'bytes':
+            c = cn(opnd(bb, 1), bb)
+            f = norm(lin(('len', c)) or {})
+            if not f:
+                return None
+            for k_, v_ in f.items():
+                S[k_] = S.get(k_, 0) + v_
+            items.append(('bytes', c))
+        else:
+            return None
+    # an optional part counted in the prefix but not written: only right where the option is known to be None on this path
+    Rg = _Rg(B)
+    for k_ in list(L):
+        if isinstance(k_, tuple) and k_[0] == 'optlen' and k_ not in S:
+            none_here = False
+            from ..core import dominating_edges as _de
+            for (src, vals, dst) in _de(B, frame[-1][1]):
+                sd = B.switch_on_discr(src)
+                if sd and 'core::option::Option<' in sd[1] and 'else' not in vals and vals == [0]:
+                    if strip_ref(_cn(B, {'k': 'cp', 'pl': sd[0]}, 0, (src, None))) == k_[1]:
+                        none_here = True
+            if not none_here:
+                # the option is tested after the writes seen so far: this sequence is the None side when, wherever the option is Some,
+                # the payload is written before the flush (so a path without that write has taken the None edge)
+                pay_blocks = set()
+                for b2, t2 in B.calls():
+                    p2 = prim_of(t2)
+                    if p2 is not None and p2[0] == 'w' and p2[1] == 'bytes' and len(t2['args']) > 1:
+                        c2 = cn(t2['args'][1], b2)
+                        if isinstance(c2, tuple) and c2 and c2[0] == 'place' and tuple(c2[2]) == ('as:Some', '0') and strip_ref(c2[1]) == k_[1]:
+                            pay_blocks.add(b2)
+                ends = [bb_ for w_, bb_ in rs if w_ == 'flush'] or [frame[-1][1]]
+                for sw in sorted(B.live_blocks()):
+                    sd = B.switch_on_discr(sw)
+                    if not (sd and 'core::option::Option<' in sd[1] and pay_blocks):
+                        continue
+                    if strip_ref(_cn(B, {'k': 'cp', 'pl': sd[0]}, 0, (sw, None))) != k_[1]:
+                        continue
+                    some_t = [b_ for v_, b_ in sd[2] if v_ == 1]
+                    some_t = some_t[0] if some_t else sd[3]
+                    if some_t is not None and not any(e_ in B.reachable(some_t, removed_blocks=pay_blocks) for e_ in ends):
+                        none_here = True
+            if none_here:
+                del L[k_]
+            else:
+                return None
+    if L != S:
+        return None
+    # content
+    if items and items[0][0] == 'u8':
+        if items[0][1] != ('const', 112):
+            return None
+        by = [c for k_, c in items[1:] if k_ == 'bytes']
+
+        def from_encode(c):
+            if 'encode' in str(c):
+                return True
+            # the payload of an Option every Some(..) definition of which holds the result of an encode call
+            if isinstance(c, tuple) and c and c[0] == 'place' and tuple(c[2]) == ('as:Some', '0') and isinstance(c[1], tuple) and c[1] and c[1][0] == 'local':
+                somes = [d_ for d_ in B.defs().get(c[1][1], []) if d_[0] == 's' and d_[3]['rv']['k'] == 'agg' and d_[3]['rv'].get('var') == 'Some']
+                return bool(somes) and all('encode' in str(cn(d_[3]['rv']['ops'][0], d_[1])) for d_ in somes)
+            # message.map(erltf::encode).transpose()?: Some(bytes) exactly when there is a message, the bytes being its encoding
+            if isinstance(c, tuple) and c and c[0] == 'place' and tuple(c[2]) == ('as:Some', '0') and isinstance(c[1], tuple) and c[1] and c[1][0] == 'payload' \
+                    and isinstance(c[1][1], tuple) and c[1][1][0] == 'call' and str(c[1][1][1]).endswith('::transpose'):
+                tt = B.blocks[c[1][1][2]]['t']
+                om = B.origin(tt['args'][0]) if tt['args'] else ('unknown',)
+                if om[0] == 'call' and om[1] and om[1].endswith('Option::<T>::map'):
+                    mt = B.blocks[om[2]]['t']
+                    return len(mt['args']) > 1 and mt['args'][1].get('k') == 'c' and 'encode' in str(mt['args'][1].get('fn'))
+            return False
+        if len(by) != len(items) - 1 or not (1 <= len(by) <= 2) or not all(from_encode(c) for c in by):
+            return None
+        return 'pt-ctl+payload' if len(by) == 2 else 'pt-ctl'
+    if len(items) == 1 and items[0][0] == 'bytes':
+        c = items[0][1]
+        txt = str(c)
+        if 'encode_with_dist_header_multi' in txt:
+            return 'hdr-ctl+payload'
+        if 'encode_with_dist_header' in txt:
+            return 'hdr-ctl'
+        # `let encoded = match message { Some(m) => multi(..)?, None => single(..)? }`: one write for both cases
+        l_ = c[1] if isinstance(c, tuple) and len(c) >= 2 and c[0] in ('local', 'phi') and isinstance(c[1], int) else None
+        if l_ is not None:
+            from ..ranges import _canon_def
+            ds_ = B.defs().get(l_, [])
+            txts = [str(_canon_def(B, l_, d_, 4)) for d_ in ds_]
+            if ds_ and all('encode_with_dist_header' in x for x in txts):
+                out = set()
+                for x in txts:
+                    out.add('hdr-ctl+payload' if 'encode_with_dist_header_multi' in x else 'hdr-ctl')
+                return tuple(sorted(out))
+    return None
+
+
 def param_of(B, op):
     base, projs = unwrap(B.origin(op))
     for p in projs:
@@ -312,6 +510,22 @@ def run(ctx):
                 return [('flush', None, describe(B_, canon(B_, t['args'][0])))]
             return []
         seqs, _ = success_sequences(B, ev)
+        # the same sequences with the raw operands (for the symbolic check of sequences the textual classification does not know)
+        def ev_raw(B_, bb):
+            t = B_.blocks[bb]['t']
+            if t['k'] != 'call':
+                return []
+            p = prim_of(t)
+            if p is not None and p[0] == 'w':
+                return [(p[1], bb)]
+            if any(n.endswith('AsyncWriteExt::flush') for n in callee_names(t)):
+                return [('flush', bb)]
+            return []
+        raw_seqs, _ = success_sequences(B, ev_raw)
+        seq_events = {}
+        for rs in raw_seqs:
+            key = tuple(x for bb_ in [e[1] for e in rs] for x in ev(B, bb_))
+            seq_events[key] = rs
         shapes = {'pt-ctl': 0, 'pt-ctl+payload': 0, 'hdr-ctl': 0, 'hdr-ctl+payload': 0, 'other': []}
         # helpers of the crate that only convert a length with try_from (checked identity): seen through, like an `as` cast
         ident = {n.rsplit('::', 1)[1] for bb, t in B.calls() for n in callee_names(t) if n.startswith('edp_client::') and is_checked_identity(P, n)} | {'try_from', 'try_into'}
@@ -342,7 +556,14 @@ def run(ctx):
             elif m_h and m_h.group('e') == m_h.group('e2') and 'encode_with_dist_header' in m_h.group('e'):
                 shapes['hdr-ctl'] += 1
             else:
-                shapes['other'].append(desc)
+                sem = _frame_semantic(ctx, P, B, seq_events.get(s))
+                if isinstance(sem, str) and sem in shapes:
+                    shapes[sem] += 1
+                elif isinstance(sem, tuple) and sem and all(x in shapes for x in sem):
+                    for x in sem:
+                        shapes[x] += 1
+                else:
+                    shapes['other'].append(desc)
         for k in ('pt-ctl', 'pt-ctl+payload', 'hdr-ctl', 'hdr-ctl+payload'):
             if shapes[k] >= 1:
                 ctx.ok('C07.3-frame-layout', k, 'one frame: length prefix equals the bytes that follow', ctx.where(B))
